@@ -60,3 +60,63 @@ func runBoxCases(outDir string, extra map[string]interface{}) {
 	}
 	extra["cssbox_cases_exhaustive"] = n
 }
+
+// Correspondence data for the Coq model Css/CssColor.v (hash-token branch of minifyColor): structured and random hash
+// colours through the real css.Minify in a `color:` declaration.
+func runHexCases(seed uint64, n int, outDir string, extra map[string]interface{}) {
+	fin, _ := os.OpenFile(filepath.Join(outDir, "cases.in"), os.O_APPEND|os.O_WRONLY, 0o644)
+	fout, _ := os.OpenFile(filepath.Join(outDir, "cases.go.out"), os.O_APPEND|os.O_WRONLY, 0o644)
+	defer fin.Close()
+	defer fout.Close()
+	m := minify.New()
+	x := seed*0x9E3779B97F4A7C15 + 12345
+	rnd := func(k int) int {
+		x ^= x << 13
+		x ^= x >> 7
+		x ^= x << 17
+		return int(x>>11) % k
+	}
+	digits := "0123456789abcdefABCDEF"
+	few := "0fFa8"
+	cnt := 0
+	emit := func(h string) {
+		src := "a{color:" + h + "}"
+		var out bytes.Buffer
+		if err := (&cssmin.Minifier{}).Minify(m, &out, strings.NewReader(src), nil); err != nil {
+			return
+		}
+		o := strings.TrimSuffix(strings.TrimPrefix(out.String(), "a{color:"), "}")
+		fmt.Fprintf(fin, "csshex\t%x\n", h)
+		fmt.Fprintf(fout, "%x\n", o)
+		cnt++
+	}
+	// every entry of the hex -> keyword table and its neighbours come from the generator below through `few`; table keys:
+	for k := range cssmin.ShortenColorHex {
+		emit(k)
+		emit(strings.ToUpper(k))
+		emit(k + "ff")
+		emit(k + "00")
+		emit(k + "f0")
+	}
+	for i := 0; i < n; i++ {
+		ln := []int{3, 4, 6, 8, 6, 8, 8}[rnd(7)]
+		b := make([]byte, ln)
+		alpha := digits
+		if rnd(2) == 0 {
+			alpha = few
+		}
+		for j := range b {
+			b[j] = alpha[rnd(len(alpha))]
+		}
+		if ln >= 6 && rnd(3) > 0 { // doubled pairs, possibly all but one
+			for j := 0; j+1 < ln; j += 2 {
+				b[j+1] = b[j]
+			}
+			if rnd(2) == 0 {
+				b[rnd(ln)] = digits[rnd(len(digits))]
+			}
+		}
+		emit("#" + string(b))
+	}
+	extra["csshex_cases"] = cnt
+}
